@@ -1139,6 +1139,13 @@ def _split_once(M, fr, n, a):
         if M.branch(_match_at(s, i, p)):
             return some(Agg('()', [Ref(Cell(Str(s.b[:i]))), Ref(Cell(Str(s.b[i + len(p):])))]))
     return none()
+@reg(r'^core::str::<impl str>::rsplit_once$')
+def _rsplit_once(M, fr, n, a):
+    s = as_str(M, a[0]); p = _pat_bytes(M, a[1])
+    for i in range(len(s.b) - len(p), -1, -1):
+        if M.branch(_match_at(s, i, p)):
+            return some(Agg('()', [Ref(Cell(Str(s.b[:i]))), Ref(Cell(Str(s.b[i + len(p):])))]))
+    return none()
 @reg(r'^core::str::<impl str>::(trim|trim_start|trim_end)$')
 def _trim(M, fr, n, a):
     s = as_str(M, a[0]); c = s.conc()
